@@ -156,7 +156,7 @@ func (w *World) byzBlock(b int, r int, variant string) *BlockInfo {
 		})
 	case "bad-time-earlier":
 		mutate(func(hd *types.Header) { hd.Time = hd.Time.Add(-time.Millisecond) })
-	case "bad-lastcommit-round", "bad-lastcommit-height", "bad-lastcommit-id-parts", "bad-lastcommit-half", "bad-lastcommit-swapped-sigs", "bad-lastcommit-short":
+	case "bad-lastcommit-round", "bad-lastcommit-height", "bad-lastcommit-id-parts", "bad-lastcommit-half", "bad-lastcommit-swapped-sigs", "bad-lastcommit-short", "bad-lastcommit-forged-nil":
 		// one field of the last commit off (the header keeps pointing at the right parent)
 		if h == 1 {
 			return nil
@@ -203,6 +203,42 @@ func (w *World) byzBlock(b int, r int, variant string) *BlockInfo {
 			sigs[a].Signature, sigs[bb].Signature = sigs[bb].Signature, sigs[a].Signature
 		case "bad-lastcommit-short":
 			sigs = sigs[:len(sigs)-1]
+		case "bad-lastcommit-forged-nil":
+			// +2/3 genuine for-block signatures stay; one further slot (an absent one, else a for-block one the quorum
+			// does not need) carries a NIL-flagged entry with the slot owner's address, the block's own (median) time and
+			// the adversary's signature bytes: it adds no power, but it is not signed by that validator
+			vals := rn.State().LastValidators
+			var forged []byte
+			for i := range sigs {
+				if sigs[i].ValidatorAddress == w.Addrs[b] && len(sigs[i].Signature) > 0 {
+					forged = sigs[i].Signature
+				}
+			}
+			if forged == nil {
+				forged = bytesOf(0x5a, 65)
+			}
+			slot := -1
+			for i := range sigs {
+				if sigs[i].Absent() {
+					slot = i
+				}
+			}
+			if slot < 0 {
+				tot, acc := vals.TotalVotingPower(), int64(0)
+				for i := range sigs {
+					acc += vals.Validators[i].VotingPower
+				}
+				for i := len(sigs) - 1; i >= 0; i-- {
+					if vals.Validators[i].Address != w.Addrs[b] && (acc-vals.Validators[i].VotingPower)*3 > tot*2 {
+						slot = i
+						break
+					}
+				}
+			}
+			if slot < 0 {
+				return nil
+			}
+			sigs[slot] = types.CommitSig{BlockIDFlag: types.BlockIDFlagNil, ValidatorAddress: vals.Validators[slot].Address, Timestamp: block.Header().Time, Signature: forged}
 		}
 		nc := types.NewCommit(ch, cr, cid, sigs)
 		hd := block.Header()
@@ -264,7 +300,7 @@ func (w *World) byzProposal(b int, bi *BlockInfo, h uint64, round, pol uint32, t
 
 var invalidVariants = []string{"bad-apphash", "bad-lastblockid", "bad-time", "bad-valhash", "bad-nextvalhash", "bad-height", "bad-proposer", "bad-lastcommit",
 	"bad-parent-parts-total", "bad-parent-parts-hash", "bad-time-earlier", "bad-lastcommit-round", "bad-lastcommit-height", "bad-lastcommit-id-parts",
-	"bad-lastcommit-half", "bad-lastcommit-swapped-sigs", "bad-lastcommit-short", "replay-previous"}
+	"bad-lastcommit-half", "bad-lastcommit-swapped-sigs", "bad-lastcommit-short", "bad-lastcommit-forged-nil", "replay-previous"}
 
 // byzMenu lists the adversary's moves against receiver r in its current state.
 func (w *World) byzMenu(r int) []*ByzAction {
@@ -379,6 +415,14 @@ func (w *World) byzMenu(r int) []*ByzAction {
 				}
 			}
 		}
+	}
+	return out
+}
+
+func bytesOf(b byte, n int) []byte {
+	out := make([]byte, n)
+	for i := range out {
+		out[i] = b
 	}
 	return out
 }
